@@ -226,7 +226,24 @@ impl<'a> LoweringManager<'a> {
             }
           })
           .collect_vec();
-        let statements = self.lower_stmt_block(statements);
+        let mut statements = self.lower_stmt_block(statements);
+        // All loop values are evaluated before any loop variable is updated, but the backends assign
+        // them one after another. A loop value that reads a loop variable that an earlier assignment
+        // has already overwritten is therefore saved into a temporary at the end of the loop body.
+        let mut loop_variables = loop_variables;
+        for j in 1..loop_variables.len() {
+          if let lir::Expression::Variable(read_name, _) = &loop_variables[j].loop_value
+            && loop_variables[..j].iter().any(|earlier| earlier.name.eq(read_name))
+          {
+            let saved = self.heap.alloc_temp_str();
+            let type_ = loop_variables[j].type_.clone();
+            let assigned_expression = std::mem::replace(
+              &mut loop_variables[j].loop_value,
+              lir::Expression::Variable(saved, type_.clone()),
+            );
+            statements.push(lir::Statement::Cast { name: saved, type_, assigned_expression });
+          }
+        }
         let break_collector = if let Some(mir::VariableName { name, type_ }) = break_collector {
           Some((name, self.lower_type(type_)))
         } else {
